@@ -158,6 +158,8 @@ class KindEnv:
                 if {"nan", "inf"} <= ex or self.kind(e.args[0], depth + 1) in (INT, FINITE):
                     return FINITE
                 return NUM
+            if fn == "math.copysign" and len(e.args) == 2 and self.kind(e.args[0], depth + 1) in (INT, FINITE):
+                return FINITE  # the magnitude of the first argument with some sign: never NaN
             if fn.startswith("math."):
                 return NUM
             return UNK
